@@ -12,8 +12,8 @@ class Vote(V.Family):
     props = ("C17",)
     driver_pkg = "mainchain"
     monitor = ("MainChainVoteTrace.tla", "MainChainVoteTrace.cfg")
-    step_keys = ("act", "S", "id", "key", "val", "lst", "cand", "payee", "amt", "gap")
-    reset_keys = ("n", "src", "strangerCfg")
+    step_keys = ("act", "S", "id", "key", "val", "lst", "cand", "payee", "amt", "gap", "x")
+    reset_keys = ("n", "src", "strangerCfg", "x")
     assume = [
         "neo-go v0.107.0 compiler/VM/ledger/neotest are faithful to the production platform (transaction atomicity on FAULT, "
         "witness checks, ledger.CurrentIndex() = block index - 1, sequential execution of the transactions of a block)",
@@ -74,8 +74,8 @@ class Gas(V.Family):
     props = ("C19",)
     driver_pkg = "mainchain"
     monitor = ("MainChainGasTrace.tla", "MainChainGasTrace.cfg")
-    step_keys = ("act", "S", "u", "v", "amt", "w", "k", "id", "gap")
-    reset_keys = ("notary", "ns", "nc", "idx", "src")
+    step_keys = ("act", "S", "u", "v", "amt", "w", "k", "id", "gap", "x")
+    reset_keys = ("notary", "ns", "nc", "idx", "src", "x")
     assume = [
         "neo-go v0.107.0 compiler/VM/ledger/native contracts/neotest are faithful to the production platform",
         "GAS amounts are exact: the driver splits every native balance / notification amount into three base-10^6 limbs "
